@@ -47,11 +47,8 @@ def main(tier="quick", seed=1):
             else:
                 jobs.append([COVBIN, "run", src[1], tp])
     jobs.append([COVBIN, "sint", os.path.join(rundir, "sint.ndjson")])
-    def run(j):
-        p = subprocess.run(j, env=renv, stdout=subprocess.PIPE, stderr=subprocess.STDOUT, text=True)
-        for f in j:
-            if f.endswith(".ndjson") and "/t" in f and os.path.exists(f):
-                os.remove(f)
+    def run(j, e=None):
+        p = subprocess.run(j, env=e or renv, stdout=subprocess.PIPE, stderr=subprocess.STDOUT, text=True)
         return p.returncode
     with ThreadPoolExecutor(8) as ex:
         rcs = list(ex.map(run, jobs))
@@ -60,23 +57,55 @@ def main(tier="quick", seed=1):
     run([COVBIN, "random", "engine-cw20", str(seed * 131), "120", os.path.join(rundir, "tsrc.ndjson"), "25", tsp])
     if os.path.exists(tsp):
         run([COVBIN, "twin", tsp, os.path.join(rundir, "twin.ndjson")])
-    raws = glob.glob(os.path.join(prof, "*.profraw"))
-    pd = os.path.join(rundir, "all.profdata")
-    rc, out = sh([os.path.join(LLVM, "llvm-profdata"), "merge", "-sparse", "-o", pd] + raws)
-    if rc != 0:
-        raise ToolError("llvm-profdata: " + out[-2000:])
-    rc, out = sh([os.path.join(LLVM, "llvm-cov"), "export", "-format=lcov", "-instr-profile=" + pd, COVBIN,
-                  "-ignore-filename-regex=(registry|rustc|/verif/|testing|/tests/)"])
-    if rc != 0:
-        raise ToolError("llvm-cov: " + out[-2000:])
-    files, cur = {}, None
-    for l in out.splitlines():
-        if l.startswith("SF:"):
-            cur = l[3:]
-            files[cur] = {}
-        elif l.startswith("DA:") and cur:
-            ln, cnt = l[3:].split(",")[:2]
-            files[cur][int(ln)] = max(files[cur].get(int(ln), 0), int(cnt))
+    def lines_of(profdir, name):
+        raws = glob.glob(os.path.join(profdir, "*.profraw"))
+        pd = os.path.join(rundir, name + ".profdata")
+        rc, out = sh([os.path.join(LLVM, "llvm-profdata"), "merge", "-sparse", "-o", pd] + raws)
+        if rc != 0:
+            raise ToolError("llvm-profdata: " + out[-2000:])
+        rc, out = sh([os.path.join(LLVM, "llvm-cov"), "export", "-format=lcov", "-instr-profile=" + pd, COVBIN,
+                      "-ignore-filename-regex=(registry|rustc|/verif/|testing|/tests/)"])
+        if rc != 0:
+            raise ToolError("llvm-cov: " + out[-2000:])
+        files, cur = {}, None
+        for l in out.splitlines():
+            if l.startswith("SF:"):
+                cur = l[3:]
+                files[cur] = {}
+            elif l.startswith("DA:") and cur:
+                ln, cnt = l[3:].split(",")[:2]
+                files[cur][int(ln)] = max(files[cur].get(int(ln), 0), int(cnt))
+        return files
+    files = lines_of(prof, "all")
+    # second pass: only the transactions that committed (a failed transaction changes nothing, so the
+    # filtered scenario reaches the same states): lines executed only inside failing transactions are
+    # arms through which nothing was ever observed to commit
+    prof2 = os.path.join(rundir, "prof2")
+    os.makedirs(prof2, exist_ok=True)
+    renv2 = dict(os.environ, LLVM_PROFILE_FILE=os.path.join(prof2, "p-%p-%m.profraw"))
+    jobs2 = []
+    for tp in sorted(glob.glob(os.path.join(rundir, "t[0-9]*.ndjson"))):
+        sp = tp.replace(".ndjson", ".okscn")
+        n, cur = 0, None
+        with open(sp, "w") as f:
+            for l in open(tp):
+                e = json.loads(l)
+                if e["kind"] == "reset":
+                    if cur is not None:
+                        f.write(json.dumps(cur) + "\n")
+                    cur = dict(id="ok-%d" % n, deploy=e["deploy"], ops=[])
+                    n += 1
+                elif e["kind"] == "block":
+                    cur["ops"].append(dict(k="block", dh=e["tx"]["a"]["dh"], dt=e["tx"]["a"]["dt"], dns=e["tx"]["a"].get("dns", 0)))
+                elif e["kind"] == "tx" and e["res"]["ok"] and not e["fault"]:
+                    t = e["tx"]
+                    cur["ops"].append(dict(k="tx", c=t["c"], m=t["m"], s=t["s"], a=t["a"], funds=t.get("funds", 0)))
+            if cur is not None:
+                f.write(json.dumps(cur) + "\n")
+        jobs2.append([COVBIN, "run", sp, tp + ".out"])
+    with ThreadPoolExecutor(8) as ex:
+        list(ex.map(lambda j: run(j, renv2), jobs2))
+    files_ok = lines_of(prof2, "ok")
     report, tot, hit = {}, 0, 0
     for f in sorted(files):
         if not f.startswith("/repo/") or "/testing/" in f or not files[f]:
@@ -93,14 +122,21 @@ def main(tier="quick", seed=1):
                 ranges.append((start, prev)); start = prev = k
         if start is not None:
             ranges.append((start, prev))
+        okl = files_ok.get(f, {})
+        failing_only = sorted(k for k, v in lines.items() if v > 0 and okl.get(k, 0) == 0)
         report[f[len("/repo/"):]] = dict(lines=len(lines), executed=len(lines) - len(unc),
-                                        uncovered=["%d-%d" % r if r[0] != r[1] else str(r[0]) for r in ranges])
+                                        uncovered=["%d-%d" % r if r[0] != r[1] else str(r[0]) for r in ranges],
+                                        executed_only_in_failing_tx=failing_only)
         tot += len(lines); hit += len(lines) - len(unc)
     os.makedirs(os.path.join(ROOT, "evidence"), exist_ok=True)
     json.dump(dict(tier=tier, seed=seed, jobs=len(jobs), failed_jobs=sum(1 for r in rcs if r), lines=tot, executed=hit, files=report),
               open(os.path.join(ROOT, "evidence", "impl_coverage.json"), "w"), indent=1)
     for f, r in report.items():
         print("%-62s %4d/%-4d %s" % (f, r["executed"], r["lines"], " ".join(r["uncovered"][:40])))
+    print("-- lines executed only inside failing transactions / queries (no committing transaction passed through them):")
+    for f, r in report.items():
+        if r["executed_only_in_failing_tx"] and ("handle.rs" in f or "reply.rs" in f or "utils.rs" in f or "messages.rs" in f or "state.rs" in f):
+            print("%-62s %s" % (f, " ".join(map(str, r["executed_only_in_failing_tx"]))))
     print("coverage: %d/%d instrumented lines of /repo executed by %d harness runs" % (hit, tot, len(jobs)))
     shutil.rmtree(rundir, ignore_errors=True)
     return 0
